@@ -704,3 +704,25 @@ def _ber_choice_two_alts_one_recursive(env, mod, t, v, codec):
                     return True
                 seen[k] = True
     return False
+
+
+@carve('ber-retagged-reference-to-recursive-explicit-type', ['C01', 'C03', 'C04', 'C07', 'C13', 'C15', 'C16', 'C18', 'C19'])
+def _ber_retagged_recursive_explicit(env, mod, t, v, codec):
+    """BER/DER: a component/alternative that re-tags a reference to a recursive named type whose own definition carries an
+    EXPLICIT tag."""
+    if codec not in ('ber', 'der'):
+        return False
+    for r in _constructed_nodes(env, mod, t):
+        auto = tagging.component_autotags(env, r.mod, r.base)
+        for c in all_comps(r.base):
+            if c.t.kind != 'REF' or not (c.t.tag is not None or c.name in auto):
+                continue
+            if not is_recursive_ref(env, r.mod, c.t):
+                continue
+            try:
+                m2, a2 = env.lookup(r.mod, c.t.ref)
+            except KeyError:
+                continue
+            if a2.t.tag is not None and tagging.tag_mode(env, a2.t.tag, m2, a2.t) == 'EXPLICIT':
+                return True
+    return False
